@@ -157,7 +157,10 @@ class LLOneParser:
         for production in nullable_productions:
             if production.head not in llone_parsing_table:
                 llone_parsing_table[production.head] = {}
-            for first in follow_set.get(production.head, set()):
+            firsts = self._get_first_set_production(production, first_set)
+            firsts = firsts.difference({Epsilon()}).union(
+                follow_set.get(production.head, set()))
+            for first in firsts:
                 if first not in llone_parsing_table[production.head]:
                     llone_parsing_table[production.head][first] = []
                 llone_parsing_table[production.head][first].append(
